@@ -15,6 +15,7 @@ struct Violation {
   std::string cls;     // violation class, e.g. "c13:identity" or "ubsan:sub_overflow@cctz::TimeZoneInfo::LocalTime"
   std::string site;    // short, salt-free description of where/what
   std::string detail;  // free text
+  std::vector<std::string> tags;  // input preconditions a known-findings entry may require
 };
 
 struct Outcome {
